@@ -1,4 +1,5 @@
 import DeapModel.Core.Hypervolume
+import DeapModel.Core.HvSweep
 import Driver.Proto
 /-!
 Protocol handler for C15 (hypervolume).
@@ -6,6 +7,13 @@ Protocol handler for C15 (hypervolume).
   hv    <ref> <pts>              → hvSlice ref pts                       (executable definition)
   cells <ref> <pts>              → hvCells ref pts                       (specification; small inputs)
   ie    <ref> <pts>              → hvIE ref pts                          (inclusion–exclusion; small inputs)
+  sweep <ref> <pts>              → the transcribed pyhv algorithm (`HvSweep.computeSt`): value, number of
+                                   hvRecursive calls per dimIndex, final node order of every dimension list,
+                                   ignore flags, area and volume caches per node, bounds  (needs ≥ 1 dimension, ≥ 1 point)
+  hvtol <ref> <pts> <value> <tol>    → `within` iff |value − hvSlice ref pts| ≤ tol · hvSlice ref pts (float regime:
+                                       the doubles travel as their exact rational values), else `off:<exact>`
+  lootol <ref> <pts> <idx> <tol>     → `within` iff idx is an index whose exact leave-one-out loss exceeds the least
+                                       one by at most tol · hvSlice ref pts, else `off:<first least contributor>`
   pop   <weights> <vals> <ref|none>  → populationHV  and the reference point used
   ind   <weights> <vals> <ref|none>  → leastContributor  and the leave-one-out hypervolumes
 
@@ -24,7 +32,59 @@ def parseRefOpt (d : Nat) (s : String) : Option (Option (List Rat)) :=
     let r ← parseList parseRat s
     if r.length == d then some (some r) else none
 
+/-- walk `next[i]` from the sentinel (fuel `n + 1`) -/
+def walk (S : HvSweep.St) (i : Nat) : Nat → Nat → List Nat
+  | 0, _ => []
+  | f + 1, a => let b := HvSweep.nx S i a; if b = 0 then [] else b :: walk S i f b
+
+def showSweep (n dims : Nat) (r : Option (Rat × HvSweep.St)) : String :=
+  match r with
+  | none => "fuel-exhausted"
+  | some (v, S) =>
+    let ids := (List.range n).map (· + 1)
+    showRat v ++ " " ++ showList toString S.calls ++ " "
+      ++ showList2 toString ((List.range dims).map (fun i => walk S i (n + 1) 0)) ++ " "
+      ++ showList toString (ids.map (HvSweep.ign S)) ++ " "
+      ++ showList2 showRat (ids.map (fun a => (List.range dims).map (HvSweep.ar S a))) ++ " "
+      ++ showList2 showRat (ids.map (fun a => (List.range dims).map (HvSweep.vl S a))) ++ " "
+      ++ showList (fun b => match b with | none => "-inf" | some x => showRat x) S.bounds
+
+def absRat (q : Rat) : Rat := if q < 0 then -q else q
+
+def minRat : List Rat → Rat
+  | [] => 0
+  | x :: xs => xs.foldl (fun a b => if b < a then b else a) x
+
 def handle : List String → String
+  | ["hvtol", rs, ps, vs, ts] =>
+    match (do let r ← parseList parseRat rs; let p ← parsePts r.length ps; let v ← parseRat vs; let t ← parseRat ts
+              pure (r, p, v, t)) with
+    | some (r, p, v, t) =>
+      let hv := hvSlice r p
+      if absRat (v - hv) ≤ t * hv then "within" else "off:" ++ showRat hv
+    | none => "bad-op"
+  | ["lootol", rs, ps, is, ts] =>
+    match (do let r ← parseList parseRat rs; let p ← parsePts r.length ps; let i ← parseNat is; let t ← parseRat ts
+              pure (r, p, i, t)) with
+    | some (r, p, i, t) =>
+      if p.isEmpty then "bad-op"
+      else
+        let total := hvSlice r p
+        let losses := (looValues r p).map (fun x => total - x)
+        if i < p.length && decide (losses.getD i 0 - minRat losses ≤ t * total) then "within"
+        else "off:" ++ toString (argmaxFirst (looValues r p))
+    | none => "bad-op"
+  | ["sweep", rs, ps] =>
+    match (do let r ← parseList parseRat rs; let p ← parsePts r.length ps; pure (r, p)) with
+    | some (r, p) =>
+      if r.isEmpty || p.isEmpty then "bad-op"
+      else
+        let res := HvSweep.computeSt p r
+        -- first token: the transcribed algorithm against the executable specification
+        (match res with
+         | some (v, _) => if v = hvSlice r p then "ok" else "differs-from-hvSlice:" ++ showRat (hvSlice r p)
+         | none => "ok") ++ " " ++ showSweep p.length r.length res
+    | none => "bad-op"
   | ["hv", rs, ps] =>
     match (do let r ← parseList parseRat rs; let p ← parsePts r.length ps; pure (r, p)) with
     | some (r, p) => showRat (hvSlice r p)
